@@ -46,7 +46,7 @@ var parseChain = map[string]bool{
 func init() {
 	register(&propertySpec{
 		ID: "C01", NeedCG: true, Quick: cfgAMD, Thorough: cfgAll,
-		Explanation: "Decides the structural conditions PAR2 repair rests on, for every path of the code: the only failure of reconstruction - a singular or under-determined system - is propagated as an error through every frame from the row reduction up to par2.Repair (ERRFLOW on the reconstruct chain); Repair returns nil only after every buffer it wrote matched the archive's 16k-hash and MD5, and a mismatch returns an error (WGUARD with error returns); writer and reader agree on the coder constructor, on its dimensions being the lengths of the very slices handed to it (the parity table is indexed by exponent), on slice cutting/padding and on the checksum functions (PAIR); every recovery block accepted as a parity shard has the slice size the coder's equal-length precondition needs (SHLEN); per-file damage flags are written to the record Repair reads, not to a copy (DEADST/LOCALCOPY); intact files are recognised with the full per-file predicate (SKIPOK).",
+		Explanation: "Decides the structural conditions PAR2 repair rests on, for every path of the code: the only failure of reconstruction - a singular or under-determined system - is propagated as an error through every frame from the row reduction up to par2.Repair (ERRFLOW on the reconstruct chain); Repair returns nil only after every buffer it wrote matched the archive's 16k-hash and MD5, and a mismatch returns an error (WGUARD with error returns); writer and reader agree on the coder constructor, on its dimensions being the lengths of the very slices handed to it (the parity table is indexed by exponent), on slice cutting/padding and on the checksum functions (PAIR); every recovery block accepted as a parity shard has the slice size the coder's equal-length precondition needs (SHLEN); per-file damage flags are written to the record Repair reads, not to a copy (DEADST/LOCALCOPY); intact files are recognised with the full per-file predicate (SKIPOK); expected and found slice locations accumulate, so repeated slice contents do not consume recovery blocks (ACCUM); the coder workers partition the slice correctly for every goroutine count (RACE); Repair declares success only through Decoder.Repair (ENTRY-SEQ).",
 		NotDecided:  []string{"that Repair succeeds whenever k blocks survive (matrix algebra, slice search at every offset)", "volume discovery beyond what C06 decides", "the values of the reconstructed bytes"},
 		Run: func(w *World, r *Report, tier string) {
 			guard(r, "ERRFLOW", func() {
@@ -57,6 +57,9 @@ func init() {
 			guard(r, "SHLEN", func() { ruleSHLEN(w, r) })
 			guard(r, "SKIPOK", func() { ruleSKIPOK(w, r) })
 			guard(r, "DEADST", func() { ruleDEADST(w, r) })
+			guard(r, "ACCUM", func() { ruleACCUM(w, r) })
+			guard(r, "RACE", func() { ruleRACE(w, r) })
+			guard(r, "ENTRY-SEQ", func() { ruleENTRYSEQ(w, r, "par2") })
 		},
 	})
 
@@ -76,7 +79,7 @@ func init() {
 
 	register(&propertySpec{
 		ID: "C03", NeedCG: true, Quick: cfgAMD, Thorough: cfgAll,
-		Explanation: "Decides what the PAR2 verdict is computed from: the verdict predicates are evaluated exhaustively over their finite comparison domain against the table the property states, and the counters are incremented exactly on the nil / non-nil edge of the element they range over, the wrong-file counter exactly under !ok (DECIDE); a slice is recorded as found only for a non-empty CRC32+MD5 lookup of that very slice, packets are accepted only with their MD5 verified over (set id, type, body), packets of other sets are skipped and volume files are read with the decoder's set id (GATE); every per-file and per-slice flag computed while loading can reach the verdict, and is written to the record, not to a local copy of it (DEADST/LOCALCOPY); the expected-location map and the per-slice location sets accumulate - every place a slice content is expected, and every place it is found, is recorded (ACCUM).",
+		Explanation: "Decides what the PAR2 verdict is computed from: the verdict predicates are evaluated exhaustively over their finite comparison domain against the table the property states, and the counters are incremented exactly on the nil / non-nil edge of the element they range over, the wrong-file counter exactly under !ok (DECIDE); a slice is recorded as found only for a non-empty CRC32+MD5 lookup of that very slice, packets are accepted only with their MD5 verified over (set id, type, body), packets of other sets are skipped and volume files are read with the decoder's set id (GATE); every per-file and per-slice flag computed while loading can reach the verdict, and is written to the record, not to a local copy of it (DEADST/LOCALCOPY); the expected-location map and the per-slice location sets accumulate - every place a slice content is expected, and every place it is found, is recorded (ACCUM); Verify's result is built from the decoder's counts after both load phases (ENTRY-SEQ).",
 		NotDecided:  []string{"completeness of the slice search (rolling CRC, every offset) - C16", "the count of distinct recovery blocks beyond acceptance"},
 		Run: func(w *World, r *Report, tier string) {
 			guard(r, "DECIDE", func() {
@@ -87,12 +90,13 @@ func init() {
 			guard(r, "GATE", func() { ruleGATE(w, r, gateOpts{par2: true}) })
 			guard(r, "DEADST", func() { ruleDEADST(w, r) })
 			guard(r, "ACCUM", func() { ruleACCUM(w, r) })
+			guard(r, "ENTRY-SEQ", func() { ruleENTRYSEQ(w, r, "par2") })
 		},
 	})
 
 	register(&propertySpec{
 		ID: "C04", NeedCG: true, Quick: cfgAMD, Thorough: cfgAll,
-		Explanation: "Decides the structural conditions of the PAR1 round trip: encoder and decoder construct the same coder - reedsolomon.New(len(fileData), parity, WithPAR1Matrix()) - (PAIR); a data file counts as usable only after both hashes matched its entry, a parity volume only with verified control hash, the index volume's set hash and the volume number of its file name, and the probing loop covers exactly the volume numbers 1..max (GATE); the counts are incremented on the right edges and the verdict predicates equal the stated table (DECIDE); the coder's too-few-shards / singular error reaches the caller unchanged, where the classifier compares it by identity (ERRFLOW on the PAR1 chain, PAIR-ERRTYPE); the padding length is shown non-negative before make() (MKLEN).",
+		Explanation: "Decides the structural conditions of the PAR1 round trip: encoder and decoder construct the same coder - reedsolomon.New(len(fileData), parity, WithPAR1Matrix()) - (PAIR); a data file counts as usable only after both hashes matched its entry, a parity volume only with verified control hash, the index volume's set hash and the volume number of its file name, and the probing loop covers exactly the volume numbers 1..max (GATE); the counts are incremented on the right edges and the verdict predicates equal the stated table (DECIDE); the coder's too-few-shards / singular error reaches the caller unchanged, where the classifier compares it by identity (ERRFLOW on the PAR1 chain, PAIR-ERRTYPE); the padding length is shown non-negative before make() (MKLEN); the full parity check runs only when all files are usable, names are sized per UTF-16 code unit, and verify/repair declare success only through the decoder (GATE, PAIR, ENTRY-SEQ).",
 		NotDecided:  []string{"the matrix algebra inside klauspost/reedsolomon", "the range of volume numbers probed and padding arithmetic as values", "UTF-16 name handling beyond using unicode/utf16 on both sides (C10)"},
 		Run: func(w *World, r *Report, tier string) {
 			guard(r, "PAIR", func() { rulePAIRpar1(w, r); rulePAIRERRTYPE(w, r) })
@@ -103,6 +107,7 @@ func init() {
 			})
 			guard(r, "ERRFLOW", func() { ruleERRFLOW(w, r, errflowScope{fnNames: par1Chain, tag: " on the PAR1 coder chain"}, 10) })
 			guard(r, "MKLEN", func() { ruleMKLEN(w, r) })
+			guard(r, "ENTRY-SEQ", func() { ruleENTRYSEQ(w, r, "par1") })
 		},
 	})
 
@@ -120,8 +125,8 @@ func init() {
 
 	register(&propertySpec{
 		ID: "C06", Fixtures: []string{"GLOB", "DEEPEQ"}, NeedCG: true, Quick: cfgAMD, Thorough: cfgAll,
-		Explanation: "Decides the reader-side structure that layout independence needs: volume discovery lists the directory with an error-returning API and matches prefix and suffix literally, with no further filter, so no base name is interpreted as a pattern and every '<base>.*.par2' beside the index file is returned (GLOB); a file of the set without a main packet cannot be dereferenced (NILF); packets of other sets and of unknown types are skipped without ending the file or storing anything (GATE G2/G3); the exponent-indexed parity table grows without narrow-type wrap and the coder has a row for every index of it (WIRE S2/S5, PAIR); comparisons of duplicated packets compare like with like (DEEPEQ).",
-		NotDecided:  []string{"insensitivity to packet order and duplication as behaviour", "comparisons over partially filled parity tables (value level)"},
+		Explanation: "Decides the reader-side structure that layout independence needs: volume discovery lists the directory with an error-returning API and matches prefix and suffix literally, with no further filter, so no base name is interpreted as a pattern and every '<base>.*.par2' beside the index file is returned (GLOB); a file of the set without a main packet cannot be dereferenced (NILF); packets of other sets and of unknown types are skipped without ending the file or storing anything (GATE G2/G3); the exponent-indexed parity table grows without narrow-type wrap and the coder has a row for every index of it (WIRE S2/S5, PAIR); comparisons of duplicated packets compare like with like and the sparse parity table is never compared as a whole (DEEPEQ); a header-only packet is accepted (CONST length bound).",
+		NotDecided:  []string{"insensitivity to packet order and duplication as behaviour"},
 		Run: func(w *World, r *Report, tier string) {
 			guard(r, "GLOB", func() { ruleGLOB(w, r, globAll) })
 			guard(r, "NILF", func() { ruleNILF(w, r) })
@@ -129,6 +134,7 @@ func init() {
 			guard(r, "WIRE", func() { ruleWIRE(w, r, "(*par2.Decoder).LoadParityData") })
 			guard(r, "PAIR", func() { rulePAIRpar2(w, r, pairOpts{decoder: true}) })
 			guard(r, "DEEPEQ", func() { ruleDEEPEQ(w, r, "par2") })
+			guard(r, "CONST", func() { constPacketLenBound(w, r) })
 		},
 	})
 
@@ -191,29 +197,35 @@ func init() {
 			guard(r, "PAIR", func() { rulePAIRpar1(w, r) })
 			guard(r, "GATE", func() { ruleGATE(w, r, gateOpts{par1: true, probe: true}) })
 			guard(r, "IDXDOM", func() { ruleIDXDOM(w, r) })
+			guard(r, "IMMUT", func() { ruleIMMUT(w, r, "par1") })
 			guard(r, "RANGE", func() { ruleRANGE(w, r, []string{"par1"}, 0) })
 		},
 	})
 
 	register(&propertySpec{
 		ID: "C11", NeedCG: true, Quick: cfgAMD, Thorough: cfgAll,
-		Explanation: "Decides 'matrix operations never modify their operands' for every exported gf2p16.Matrix constructor and method: receiver, matrix and slice arguments are never written, through any callee including the bulk kernels and the row views (OWN: mutators run only on fresh clones); that copies of rows and element arrays have provably equal lengths, so no row operation moves part of a row (COPYLEN); and that a singular matrix is reported as an error in every frame up to the caller (ERRFLOW on the matrix chain).",
+		Explanation: "Decides 'matrix operations never modify their operands' for every exported gf2p16.Matrix constructor and method: receiver, matrix and slice arguments are never written, through any callee including the bulk kernels and the row views (OWN: mutators run only on fresh clones); that copies of rows and element arrays have provably equal lengths, so no row operation moves part of a row (COPYLEN); that a singular matrix is reported as an error in every frame up to the caller (ERRFLOW on the matrix chain); and that the bulk kernels the row operations run through cover the whole row and stay inside it (ASM, KGUARD: stride, tail offset, dispatcher coverage).",
 		NotDecided:  []string{"correctness of the inverse and of the row-reduced product as values", "that an error is reported exactly when the matrix is singular (pivot search as values)"},
 		Run: func(w *World, r *Report, tier string) {
 			guard(r, "OWN", func() { ruleOWN(w, r, ownOpts{matrix: true}) })
 			guard(r, "COPYLEN", func() { ruleCOPYLEN(w, r) })
 			guard(r, "ERRFLOW", func() { ruleERRFLOW(w, r, errflowScope{fnNames: matrixChain, tag: " on the matrix chain"}, 3) })
+			if w.GOARCH == "amd64" {
+				// row scaling and scaled row addition run through the bulk kernels
+				guard(r, "ASM", func() { pres := ruleASM(w, r); ruleKGUARD(w, r, pres) })
+			}
 		},
 	})
 
 	register(&propertySpec{
 		ID: "C12", Fixtures: []string{"GLOBALS"}, NeedCG: true, Quick: cfgAMD, Thorough: cfgAll,
-		Explanation: "Decides race freedom and schedule independence of the coder workers for all goroutine counts, lengths and interleavings from the shape of the code: captures are stable, workers only call applyMatrixSlice, each worker's range is exactly [i*P, min(i*P+P, N)) with P >= 16 a multiple of 16 (word-aligned) and N the true length, the number of workers is ceil(N/P) unmodified - so the ranges are pairwise disjoint AND cover [0,N) -, the other dimension is passed whole, Add/Done/Wait bracket the loop (RACE); the kernels write only through their out argument (OWN, which reads the assembly kernels by their out* parameters); no package-level state is written after initialisation (GLOBALS).",
+		Explanation: "Decides race freedom and schedule independence of the coder workers for all goroutine counts, lengths and interleavings from the shape of the code: captures are stable, workers only call applyMatrixSlice, each worker's range is exactly [i*P, min(i*P+P, N)) with P >= 16 a multiple of 16 (word-aligned) and N the true length, the number of workers is ceil(N/P) unmodified - so the ranges are pairwise disjoint AND cover [0,N) -, the other dimension is passed whole, Add/Done/Wait bracket the loop (RACE); the kernels write only through their out argument (OWN, which reads the assembly kernels by their out* parameters); no package-level state is written after initialisation (GLOBALS); the goroutine option reaches nothing but the coder (DETERM D-e).",
 		NotDecided:  []string{"that the single-threaded result is the right one (C07/C09)", "that the assembly kernels stay inside the out slice they are given (decided under C09: ASM/KGUARD)", "the Go memory model itself"},
 		Run: func(w *World, r *Report, tier string) {
 			guard(r, "RACE", func() { ruleRACE(w, r) })
 			guard(r, "GLOBALS", func() { ruleGLOBALS(w, r, map[string]bool{"gf2p16": true, "rsec16": true, "gf2": true}) })
 			guard(r, "OWN", func() { ruleOWN(w, r, ownOpts{kernels: true}) })
+			guard(r, "DETERM", func() { r.rule("DETERM", ruleDETERMText); determGoroutineOption(w, r) })
 		},
 	})
 
@@ -243,6 +255,8 @@ func init() {
 			guard(r, "REPORT", func() { ruleREPORT(w, r) })
 			guard(r, "DECIDE", func() { ruleDECIDECounts(w, r, map[string]bool{"par2": true, "par1": true}) })
 			guard(r, "ACCUM", func() { ruleACCUM(w, r) })
+			guard(r, "ENTRY-SEQ", func() { ruleENTRYSEQ(w, r, "par1", "par2") })
+			guard(r, "IMMUT", func() { ruleIMMUT(w, r, "par1", "par2") })
 		},
 	})
 
